@@ -2,6 +2,7 @@ import Driver.Common
 import Scion.Util.R2Aes
 import Scion.Model.Ohp
 import Scion.Model.Epic
+import Scion.Model.LinkDown
 /-! Driver for engine `router2` (C12 one-hop paths, C13 EPIC, C15 links declared down).
     Parses the op, instantiates the `mac`/`prf` parameters with AES-CMAC / AES-CBC, calls the model, prints. -/
 namespace Driver.Router2
@@ -89,6 +90,61 @@ def handleEmac : List String → Option String
     some (hexOf (Scion.Epic.calcMac cbcWith auth pkt ts0))
   | _ => none
 
+open Scion.LinkDown in
+def stOfNat : Nat → Option St
+  | 0 => some .adminDown | 1 => some .down | 2 => some .init | 3 => some .up | _ => none
+
+open Scion.LinkDown in
+def natOfSt : St → Nat
+  | .adminDown => 0 | .down => 1 | .init => 2 | .up => 3
+
+open Scion.LinkDown in
+def parseLink (s : String) : Option Link :=
+  match s.splitOn ":" with
+  | [sc, ifid, sess] => do
+    let sc ← (if sc == "i" then some Scope.internal else if sc == "s" then some .sibling
+              else if sc == "e" then some .external else none)
+    let ifid ← ifid.toNat?
+    let sess ← (if sess == "-" then some none else (sess.toNat?.bind stOfNat).map some)
+    some { scope := sc, ifID := ifid, session := sess }
+  | _ => none
+
+open Scion.LinkDown in
+def renderOut : Out → String
+  | .bfd none => "st -"
+  | .bfd (some st) => s!"st {natOfSt st}"
+  | .fwd e => s!"fwd {e}"
+  | .extDown ia i => s!"scmp 5 {ia} {i}"
+  | .intDown ia a b => s!"scmp 6 {ia} {a} {b}"
+  | .noLink => "nolink"
+
+open Scion.LinkDown in
+def handleLd (st : State) : List String → Option (State × String)
+  | ["cfg", ia, links, ifs] => do
+    let ia ← ia.toNat?
+    let links ← (links.splitOn ",").mapM parseLink
+    let ifs ← parseNbs ifs
+    some ({ localIA := ia, links := links, ifaces := ifs }, "ok")
+  | ["start"] =>
+    some ({ st with links := st.links.map fun l => { l with session := l.session.map fun _ => St.down } }, "ok")
+  | ["recv", ifid, r] => do
+    let ifid ← ifid.toNat?
+    let r ← r.toNat?.bind stOfNat
+    let (st', out) := step st (.recv ifid r)
+    some (st', renderOut out)
+  | ["recvt", ifid, r] => do
+    let ifid ← ifid.toNat?
+    let r ← r.toNat?.bind stOfNat
+    let (st1, _) := step st (.recv ifid r)
+    let (st2, out) := step st1 (.timeout ifid)
+    some (st2, renderOut out)
+  | ["pkt", a, b] => do
+    let a ← a.toNat?
+    let b ← b.toNat?
+    let (st', out) := step st (.pkt a b)
+    some (st', renderOut out)
+  | _ => none
+
 def handle : List String → String
   | "ohp" :: rest => (handleOhp rest).getD "bad-op"
   | "epic" :: rest => (handleEpic rest).getD "bad-op"
@@ -98,4 +154,11 @@ def handle : List String → String
 
 end Driver.Router2
 
-def main : IO Unit := Driver.statelessLoop Driver.Router2.handle
+def Driver.Router2.handleS (st : Scion.LinkDown.State) : List String → Scion.LinkDown.State × String
+  | "ld" :: rest => match Driver.Router2.handleLd st rest with
+    | some r => r
+    | none => (st, "bad-op")
+  | ws => (st, Driver.Router2.handle ws)
+
+def main : IO Unit :=
+  Driver.statefulLoop ({ localIA := 0, links := [], ifaces := [] } : Scion.LinkDown.State) Driver.Router2.handleS
